@@ -1,141 +1,199 @@
 ------------------------------ MODULE Session ------------------------------
-(* Prototype I-layer of lib_guesser/cracking_session.py + keypress thread + .sav/.omn persistence.
-   Pre-terminal queue abstracted to the (strictly decreasing) list PT; restore = items with rank <= saved. *)
+(***************************************************************************)
+(* I-layer model of one or more guessing sessions:                         *)
+(*   lib_guesser/cracking_session.py  CrackingSession.run / _save_session, *)
+(*                                    keypress (the keyboard thread)       *)
+(*   lib_guesser/pcfg_grammar.py      omen_generate_guesses / restore_omen *)
+(*   pcfg_guesser.py                  new session vs --load                *)
+(* Two processes, Main and Kbd.  Every program counter value is a *gate*   *)
+(* of the conformance harness (harness/gated.py): a thread parked at gate  *)
+(* g has pc = g, and one action = running from that gate to the next one,  *)
+(* so a recorded gate log is, entry by entry, a behaviour of this module   *)
+(* (TrSession_I.tla).  The fixes F2 / F5a / F5b of the repository are      *)
+(* switchable (Fix* constants) so that the same model documents the        *)
+(* defects of the pinned tree and serves as regression model.              *)
+(*                                                                         *)
+(* The pre-terminal queue is abstracted to the strictly decreasing list PT *)
+(* (pre-terminal i has rank N+1-i; restore = items with rank <= saved);    *)
+(* ties and the real restore walk are PTQueue.tla's business.              *)
+(***************************************************************************)
 EXTENDS Naturals, Sequences, FiniteSets, TLC, SequencesExt
 
-CONSTANTS PT,            \* sequence of [kind |-> "plain"|"omen", size |-> 1..]
-          Scripts,       \* set of keyboard scripts: sequences over {"enter","h","q"} ending in "block" or "eof"
+CONSTANTS PT,            \* Seq of [kind |-> "plain" | "omen", size |-> number of guesses]
+          Scripts,       \* keyboard scripts: Seq over {"", "h", "q", "x"} ending in "block" or "EOF"
           MaxSess,
-          FixChk,        \* TRUE: main loop tests should_exit ; FALSE (pinned): tests thread liveness
-          FixInput,      \* TRUE: input() errors end the thread quietly AND liveness is not a command
-          FixStale,      \* TRUE: omen_guess_number removed from config after restore_omen
-          FixLast        \* TRUE: session saved when the queue empties while omen_exit is set
+          FixChk,        \* TRUE: loop tests should_exit (after F2); FALSE: tests keyboard thread liveness
+          FixStale,      \* TRUE: omen_guess_number removed after a completed restore_omen (after F5a)
+          FixLast        \* TRUE: session saved when the queue empties while omen_exit is set (after F5b)
 
 N == Len(PT)
-Rank(i) == N + 1 - i            \* strictly decreasing
+Rank(i) == N + 1 - i
 INF == N + 1
-NoOmen == 0 - 1 + 1             \* placeholder, real absence encoded by sav.hasomen
 
-Expected == LET F[i \in 0..N] == IF i = 0 THEN <<>> ELSE F[i-1] \o [j \in 1..PT[i].size |-> <<i,j>>] IN F[N]
+Expected == LET F[i \in 0..N] == IF i = 0 THEN <<>> ELSE F[i - 1] \o [k \in 1..PT[i].size |-> <<i, k>>] IN F[N]
 
-VARIABLES sav, omn,                     \* persistent
-          sess, script, spos,           \* environment
-          mpc, q, cur, j, sexit, oexit, ognum, cfgomen,   \* main + shared flags; cfgomen: option present in loaded config
-          kpc, kline, alive, qseen, placeholder,
-          stream
-vars == <<sav,omn,sess,script,spos,mpc,q,cur,j,sexit,oexit,ognum,cfgomen,kpc,kline,alive,qseen,placeholder,stream>>
+VARIABLES sav, omn,                                   \* persistent: .sav and .omn files
+          sess, script, spos,                          \* process number, keyboard script and position
+          mpc, q, cur, j, sexit, oexit, ognum, cfgomen, placeholder,     \* main thread + shared flags
+          kpc, kline, qseen,                           \* keyboard thread
+          stream                                       \* stdout, across all sessions
+vars == <<sav, omn, sess, script, spos, mpc, q, cur, j, sexit, oexit, ognum, cfgomen, placeholder, kpc, kline, qseen, stream>>
+
+MainVars == <<mpc, q, cur, j, oexit, ognum, cfgomen, placeholder, stream, sav, omn>>
+KbdVars == <<kpc, kline, qseen, spos>>
 
 Init == /\ sav = [maxp |-> INF, hasomen |-> FALSE, ognum |-> 0]
         /\ omn = [pt |-> 0, pos |-> 0]
         /\ sess = 1 /\ script \in Scripts /\ spos = 1
-        /\ mpc = "start" /\ q = <<>> /\ cur = 0 /\ j = 0 /\ sexit = FALSE /\ oexit = FALSE /\ ognum = 0 /\ cfgomen = FALSE
-        /\ kpc = "notstarted" /\ kline = "" /\ alive = FALSE /\ qseen = FALSE /\ placeholder = FALSE
+        /\ mpc = "start" /\ q = <<>> /\ cur = 0 /\ j = 0 /\ sexit = FALSE /\ oexit = FALSE /\ ognum = 0
+        /\ cfgomen = FALSE /\ placeholder = FALSE
+        /\ kpc = "nothread" /\ kline = "" /\ qseen = FALSE
         /\ stream = <<>>
 
-Emit(i,k) == stream' = Append(stream, <<i,k>>)
-
-\* ---------------- main thread ----------------
-MStartNew == /\ mpc = "start" /\ sess = 1
-             /\ q' = [i \in 1..N |-> i]
-             /\ sav' = [maxp |-> INF, hasomen |-> FALSE, ognum |-> 0]      \* initial save
-             /\ mpc' = "pop" /\ kpc' = "input" /\ alive' = TRUE
-             /\ UNCHANGED <<omn,sess,script,spos,cur,j,sexit,oexit,ognum,cfgomen,kline,qseen,placeholder,stream>>
-
-MStartLoad == /\ mpc = "start" /\ sess > 1
-              /\ q' = SelectSeq([i \in 1..N |-> i], LAMBDA i : Rank(i) <= sav.maxp)
-              /\ cfgomen' = sav.hasomen
-              /\ kpc' = "input" /\ alive' = TRUE
-              /\ IF sav.hasomen THEN mpc' = "romen" /\ cur' = omn.pt /\ j' = omn.pos /\ ognum' = sav.ognum /\ placeholder' = TRUE
-                                ELSE mpc' = "pop" /\ UNCHANGED <<cur,j,ognum,placeholder>>
-              /\ UNCHANGED <<sav,omn,sess,script,spos,sexit,oexit,kline,qseen,stream>>
-
-\* restore_omen / omen_generate_guesses: emit one guess, then look at should_exit
-MOmenEmit == /\ mpc \in {"romen","omen"}
-             /\ IF j < PT[cur].size
-                  THEN /\ Emit(cur, j+1) /\ j' = j + 1 /\ ognum' = ognum + 1
-                       /\ mpc' = (IF mpc = "romen" THEN "romenchk" ELSE "omenchk")
-                       /\ UNCHANGED cfgomen
-                  ELSE /\ mpc' = "pop" /\ UNCHANGED <<stream,j,ognum>>          \* next_guess() returned None
-                       /\ cfgomen' = (IF mpc = "romen" /\ FixStale THEN FALSE ELSE cfgomen)
-             /\ UNCHANGED <<sav,omn,sess,script,spos,q,cur,sexit,oexit,kpc,kline,alive,qseen,placeholder>>
-
-MOmenChk == /\ mpc \in {"romenchk","omenchk"}
-            /\ IF sexit
-                 THEN /\ oexit' = TRUE /\ omn' = [pt |-> cur, pos |-> j] /\ mpc' = "pop"
-                      /\ cfgomen' = (IF mpc = "romenchk" /\ FixStale THEN FALSE ELSE cfgomen)
-                 ELSE /\ mpc' = (IF mpc = "romenchk" THEN "romen" ELSE "omen") /\ UNCHANGED <<oexit,omn,cfgomen>>
-            /\ UNCHANGED <<sav,sess,script,spos,q,cur,j,sexit,ognum,kpc,kline,alive,qseen,placeholder,stream>>
+Alive == kpc \notin {"nothread", "dead"}
+QuitSeen == IF FixChk THEN sexit ELSE ~Alive
 
 SaveRec(mp) == [maxp |-> mp,
                 hasomen |-> IF oexit THEN TRUE ELSE cfgomen,
                 ognum |-> IF oexit THEN ognum ELSE sav.ognum]
 
+---------------------------------------------------------------------------
+(* main thread: one action per gate-to-gate segment *)
+
+(* gate "start": build the queue (new: all pre-terminals; --load: those with rank <= saved) *)
+MStart == /\ mpc = "start"
+          /\ IF sess = 1
+               THEN /\ q' = [i \in 1..N |-> i] /\ mpc' = "save0" /\ UNCHANGED <<cfgomen, kpc>>
+               ELSE /\ q' = SelectSeq([i \in 1..N |-> i], LAMBDA i : Rank(i) <= sav.maxp)
+                    /\ cfgomen' = sav.hasomen /\ mpc' = "tstart"
+                    /\ kpc' = "start"                    \* user_thread.start() happens before the next gate
+          /\ UNCHANGED <<sav, omn, sess, script, spos, cur, j, sexit, oexit, ognum, placeholder, kline, qseen, stream>>
+
+(* gate "save0": the initial save of a new session *)
+MSave0 == /\ mpc = "save0"
+          /\ sav' = [maxp |-> INF, hasomen |-> FALSE, ognum |-> 0]
+          /\ mpc' = "tstart" /\ kpc' = "start"           \* ... and then user_thread.start()
+          /\ UNCHANGED <<omn, sess, script, spos, q, cur, j, sexit, oexit, ognum, cfgomen, placeholder, kline, qseen, stream>>
+
+(* gate "tstart": the keyboard thread exists; --load with an interrupted Markov level starts restore_omen *)
+(* (if nothing of the level is left, restore_omen returns at once)                                         *)
+MThreadStarted ==
+          /\ mpc = "tstart"
+          /\ IF sess > 1 /\ cfgomen
+               THEN /\ cur' = omn.pt /\ j' = omn.pos /\ ognum' = sav.ognum /\ placeholder' = TRUE
+                    /\ IF omn.pos < PT[omn.pt].size
+                         THEN mpc' = "remit" /\ UNCHANGED cfgomen
+                         ELSE mpc' = "pop" /\ cfgomen' = (IF FixStale THEN FALSE ELSE cfgomen)
+               ELSE /\ mpc' = "pop" /\ UNCHANGED <<cur, j, ognum, placeholder, cfgomen>>
+          /\ UNCHANGED <<sav, omn, sess, script, spos, q, sexit, oexit, kpc, kline, qseen, stream>>
+
+Emit(i, k) == stream' = Append(stream, <<i, k>>)
+
+(* gates "remit" / "oemit": print one Markov guess (restore_omen / omen_generate_guesses) *)
+MOmenEmit == /\ mpc \in {"remit", "oemit"}
+             /\ Emit(cur, j + 1) /\ j' = j + 1 /\ ognum' = ognum + 1
+             /\ mpc' = (IF mpc = "remit" THEN "rchk" ELSE "ochk")
+             /\ UNCHANGED <<sav, omn, sess, script, spos, q, cur, sexit, oexit, cfgomen, placeholder, kpc, kline, qseen>>
+
+(* gates "rchk" / "ochk": the should_exit test after every Markov guess *)
+MOmenChk == /\ mpc \in {"rchk", "ochk"}
+            /\ IF sexit
+                 THEN /\ oexit' = TRUE /\ omn' = [pt |-> cur, pos |-> j]
+                      /\ mpc' = "pop" /\ UNCHANGED cfgomen
+                 ELSE /\ UNCHANGED <<oexit, omn>>
+                      /\ IF j < PT[cur].size
+                           THEN mpc' = (IF mpc = "rchk" THEN "remit" ELSE "oemit") /\ UNCHANGED cfgomen
+                           ELSE /\ mpc' = "pop"                      \* next_guess() returned None: level finished
+                                /\ cfgomen' = (IF mpc = "rchk" /\ FixStale THEN FALSE ELSE cfgomen)
+            /\ UNCHANGED <<sav, sess, script, spos, q, cur, j, sexit, ognum, placeholder, kpc, kline, qseen, stream>>
+
+(* gate "pop": pqueue.next() *)
 MPop == /\ mpc = "pop"
         /\ IF q = <<>>
-             THEN /\ mpc' = "done"
-                  /\ sav' = (IF FixLast /\ oexit THEN SaveRec(Rank(cur)) ELSE sav)
-                  /\ UNCHANGED <<q,cur>>
-             ELSE /\ cur' = Head(q) /\ q' = Tail(q) /\ mpc' = "chk" /\ UNCHANGED sav
-        /\ UNCHANGED <<omn,sess,script,spos,j,sexit,oexit,ognum,cfgomen,kpc,kline,alive,qseen,placeholder,stream>>
+             THEN /\ mpc' = (IF FixLast /\ oexit THEN "savelast" ELSE "done") /\ UNCHANGED <<q, cur>>
+             ELSE /\ cur' = Head(q) /\ q' = Tail(q) /\ mpc' = "chk"
+        /\ UNCHANGED <<sav, omn, sess, script, spos, j, sexit, oexit, ognum, cfgomen, placeholder, kpc, kline, qseen, stream>>
 
-QuitSeen == IF FixChk THEN sexit ELSE ~alive
-
+(* gate "chk": the quit test of the loop; then create_guesses starts *)
 MChk == /\ mpc = "chk"
         /\ IF QuitSeen
-             THEN /\ sav' = SaveRec(Rank(cur)) /\ mpc' = "done" /\ UNCHANGED <<j,placeholder>>
-             ELSE /\ mpc' = (IF PT[cur].kind = "omen" THEN "omen" ELSE "plain")
-                  /\ j' = 0 /\ placeholder' = FALSE /\ UNCHANGED sav
-        /\ ognum' = (IF ~QuitSeen /\ PT[cur].kind = "omen" THEN 0 ELSE ognum)
-        /\ UNCHANGED <<omn,sess,script,spos,q,cur,sexit,oexit,cfgomen,kpc,kline,alive,qseen,stream>>
+             THEN /\ mpc' = "saveq" /\ UNCHANGED <<j, placeholder, ognum>>
+             ELSE /\ j' = 0 /\ placeholder' = FALSE
+                  /\ ognum' = (IF PT[cur].kind = "omen" THEN 0 ELSE ognum)
+                  /\ mpc' = (IF PT[cur].size = 0 THEN "pop" ELSE IF PT[cur].kind = "omen" THEN "oemit" ELSE "emit")
+        /\ UNCHANGED <<sav, omn, sess, script, spos, q, cur, sexit, oexit, cfgomen, kpc, kline, qseen, stream>>
 
-MPlain == /\ mpc = "plain"
-          /\ stream' = stream \o [k \in 1..PT[cur].size |-> <<cur,k>>]
-          /\ mpc' = "pop"
-          /\ UNCHANGED <<sav,omn,sess,script,spos,q,cur,j,sexit,oexit,ognum,cfgomen,kpc,kline,alive,qseen,placeholder>>
+(* gate "emit": print one guess of a non-Markov pre-terminal *)
+MEmit == /\ mpc = "emit"
+         /\ Emit(cur, j + 1) /\ j' = j + 1
+         /\ mpc' = (IF j + 1 < PT[cur].size THEN "emit" ELSE "pop")
+         /\ UNCHANGED <<sav, omn, sess, script, spos, q, cur, sexit, oexit, ognum, cfgomen, placeholder, kpc, kline, qseen>>
 
-\* ---------------- keyboard thread ----------------
+(* gates "saveq" / "savelast": _save_session, then the process ends *)
+MSave == /\ mpc \in {"saveq", "savelast"}
+         /\ sav' = SaveRec(Rank(cur))
+         /\ mpc' = "done"
+         /\ UNCHANGED <<omn, sess, script, spos, q, cur, j, sexit, oexit, ognum, cfgomen, placeholder, kpc, kline, qseen, stream>>
+
+---------------------------------------------------------------------------
+(* keyboard thread *)
+KStart == /\ kpc = "start" /\ mpc # "done" /\ kpc' = "input"
+          /\ UNCHANGED <<sav, omn, sess, script, spos, mpc, q, cur, j, sexit, oexit, ognum, cfgomen, placeholder, kline, qseen, stream>>
+
+(* gate "input": input() returns the next scripted line, raises at EOF, or blocks for ever *)
 KInput == /\ kpc = "input" /\ mpc # "done"
-          /\ LET x == script[spos] IN
-               CASE x = "block" -> kpc' = "blocked" /\ UNCHANGED <<alive,kline,spos>>
-                 [] x = "eof"   -> /\ kpc' = "dead" /\ UNCHANGED <<kline,spos>>
-                                   /\ alive' = FALSE            \* exception (pinned) or quiet return (fixed): thread ends either way
-                 [] OTHER       -> kpc' = "sleep" /\ kline' = x /\ spos' = spos + 1 /\ UNCHANGED alive
-          /\ UNCHANGED <<sav,omn,sess,script,mpc,q,cur,j,sexit,oexit,ognum,cfgomen,qseen,placeholder,stream>>
+          /\ script[spos] # "block"
+          /\ IF script[spos] = "EOF"
+               THEN /\ kpc' = "dead" /\ UNCHANGED <<kline, spos, qseen>>          \* input() raises: the thread ends
+               ELSE /\ kpc' = "sleep" /\ kline' = script[spos] /\ spos' = spos + 1
+                    /\ qseen' = (qseen \/ script[spos] = "q")
+          /\ UNCHANGED <<sav, omn, sess, script, mpc, q, cur, j, sexit, oexit, ognum, cfgomen, placeholder, stream>>
 
-KSleep == /\ kpc = "sleep" /\ kpc' = "status"
-          /\ UNCHANGED <<sav,omn,sess,script,spos,mpc,q,cur,j,sexit,oexit,ognum,cfgomen,kline,alive,qseen,placeholder,stream>>
+KSleep == /\ kpc = "sleep" /\ mpc # "done" /\ kpc' = "status"
+          /\ UNCHANGED <<sav, omn, sess, script, spos, mpc, q, cur, j, sexit, oexit, ognum, cfgomen, placeholder, kline, qseen, stream>>
 
-\* print_status may raise while the restore placeholder pt_item is installed (IndexError in get_status)
-KStatus == /\ kpc = "status"
-           /\ \/ /\ placeholder                                  \* raises -> except: return
-                 /\ kpc' = "dead" /\ alive' = FALSE /\ UNCHANGED <<sexit,qseen>>
-              \/ /\ kline = "q" /\ sexit' = TRUE /\ qseen' = TRUE /\ kpc' = "exiting" /\ UNCHANGED alive
-              \/ /\ kline # "q" /\ kpc' = "input" /\ UNCHANGED <<sexit,qseen,alive>>
-           /\ UNCHANGED <<sav,omn,sess,script,spos,mpc,q,cur,j,oexit,ognum,cfgomen,kline,placeholder,stream>>
+(* gate "status": print_status; it may raise while the placeholder pre-terminal of restore_omen is installed *)
+(* (get_status indexes the Markov groups with the level), which ends the thread silently                   *)
+KStatus == /\ kpc = "status" /\ mpc # "done"
+           /\ \/ /\ placeholder /\ kpc' = "dead"
+              \/ /\ kpc' = (IF kline = "q" THEN "setexit" ELSE "input")
+           /\ UNCHANGED <<sav, omn, sess, script, spos, mpc, q, cur, j, sexit, oexit, ognum, cfgomen, placeholder, kline, qseen, stream>>
 
-KExit == /\ kpc = "exiting" /\ kpc' = "dead" /\ alive' = FALSE
-         /\ UNCHANGED <<sav,omn,sess,script,spos,mpc,q,cur,j,sexit,oexit,ognum,cfgomen,kline,qseen,placeholder,stream>>
+(* gate "setexit": pcfg.should_exit = True; return *)
+KSetExit == /\ kpc = "setexit" /\ mpc # "done"
+            /\ sexit' = TRUE /\ kpc' = "dead"
+            /\ UNCHANGED <<sav, omn, sess, script, spos, mpc, q, cur, j, oexit, ognum, cfgomen, placeholder, kline, qseen, stream>>
 
-\* ---------------- environment: process exits, user runs --load ----------------
+---------------------------------------------------------------------------
+(* environment: the process has ended; the user runs --load *)
 Reload == /\ mpc = "done" /\ sess < MaxSess /\ Len(stream) < Len(Expected)
           /\ sess' = sess + 1 /\ script' \in Scripts /\ spos' = 1
-          /\ mpc' = "start" /\ q' = <<>> /\ cur' = 0 /\ j' = 0 /\ sexit' = FALSE /\ oexit' = FALSE /\ ognum' = 0 /\ cfgomen' = FALSE
-          /\ kpc' = "notstarted" /\ kline' = "" /\ alive' = FALSE /\ qseen' = FALSE /\ placeholder' = FALSE
-          /\ UNCHANGED <<sav,omn,stream>>
+          /\ mpc' = "start" /\ q' = <<>> /\ cur' = 0 /\ j' = 0 /\ sexit' = FALSE /\ oexit' = FALSE /\ ognum' = 0
+          /\ cfgomen' = FALSE /\ placeholder' = FALSE
+          /\ kpc' = "nothread" /\ kline' = "" /\ qseen' = FALSE
+          /\ UNCHANGED <<sav, omn, stream>>
 
-Next == MStartNew \/ MStartLoad \/ MOmenEmit \/ MOmenChk \/ MPop \/ MChk \/ MPlain
-        \/ KInput \/ KSleep \/ KStatus \/ KExit \/ Reload
+MainNext == MStart \/ MSave0 \/ MThreadStarted \/ MOmenEmit \/ MOmenChk \/ MPop \/ MChk \/ MEmit \/ MSave
+KbdNext == KStart \/ KInput \/ KSleep \/ KStatus \/ KSetExit
+Next == MainNext \/ KbdNext \/ Reload
 Spec == Init /\ [][Next]_vars
 
-\* ---------------- properties ----------------
-\* C12b / C15: across all sessions the stream follows the expected stream (ranks strictly decreasing, so no
-\* tie repeats) - except for the one repeat C08 allows: when the quit fell inside the LAST pre-terminal and it
-\* is a Markov level, the saved position is that pre-terminal's own probability, so after its remainder the
-\* resumed session replays it (the "tied group"); every further cycle may do so again.
+---------------------------------------------------------------------------
+(* properties *)
+(* C12b / C15 / C08: across all sessions the stream follows the expected stream - except for the one repeat  *)
+(* C08 allows: when the quit fell inside the LAST pre-terminal and it is a Markov level, the saved position  *)
+(* is that pre-terminal's own probability, so after its remainder a resumed session replays it (the tied     *)
+(* group); every further cycle may do so again.                                                              *)
 LastLevel == IF PT[N].kind = "omen" THEN [k \in 1..PT[N].size |-> <<N, k>>] ELSE <<>>
 RECURSIVE Rep(_)
 Rep(k) == IF k = 0 THEN <<>> ELSE LastLevel \o Rep(k - 1)
 PrefixOK == IsPrefix(stream, Expected \o Rep(MaxSess))
-\* C12a: a session that ends without an explicit quit has emitted everything
+(* C12a: a session in which nobody asked to quit writes everything that was left *)
 NoShorten == (mpc = "done" /\ ~qseen) => IsPrefix(Expected, stream)
+(* C12c: the process only ends early at a pre-terminal boundary or between two Markov guesses *)
+LegalStop == mpc = "done" =>
+                \/ stream = <<>> \/ Len(stream) >= Len(Expected)
+                \/ LET e == stream[Len(stream)] IN e[2] = PT[e[1]].size \/ PT[e[1]].kind = "omen"
+(* a quit request, once the flag is set, is not lost: the main thread does not start another pre-terminal *)
+QuitNotLost == [][(sexit /\ mpc = "chk") => mpc' = "saveq"]_vars
 =============================================================================
